@@ -309,7 +309,8 @@ def invalid_key(case, l, where):
 def check_header(case, E, head):
     r = Toks(" ".join(head))
     if r.s() != "ok":
-        raise Bad("header", f"implementation did not answer ok: {' '.join(head)[:80]}")
+        raise Bad("valid-datasource-rejected" if head[:1] == ["throw"] else "header",
+                  f"implementation did not answer ok: {' '.join(head)[:80]}")
     if r.s() != "H":
         raise Bad("header", "no header")
     nfeat = r.int(); ncols = r.int()
@@ -665,7 +666,7 @@ def sample_list(rng, N, allow_invalid=True):
 
 def make_case(rng, tier, N=None, specs=None, boundary=False):
     if N is None:
-        N = rng.choice(N_BOUNDARY) if rng.chance(0.7) else rng.range(1, 60 if tier == "quick" else 200)
+        N = rng.choice(N_BOUNDARY) if rng.chance(0.7) else rng.range(1, 200 if (tier != "quick" or rng.chance(0.15)) else 60)
     want_gradient = rng.chance(0.08)
     if specs is None:
         nf = rng.range(1, 12) if rng.chance(0.3) else rng.range(1, 6)
@@ -800,7 +801,7 @@ def gen(rng, tier):
     if os.path.exists(cp):
         ops += [l.strip() for l in open(cp) if l.strip() and not l.startswith("#")]
     ops += boundary_cases(rng, tier)
-    for _ in range(700 if tier == "quick" else 6000):
+    for _ in range(2500 if tier == "quick" else 12000):
         ops.append(make_case(rng, tier))
     return ops
 
@@ -875,21 +876,53 @@ def classify(op, kind, detail):
         return "unparsed"
     if kind == "crash":
         lists = [(h[0], h[-1]) for h in c.hist if isinstance(h[-1], list)]
-        if any(l == [] for _, l in lists):
-            return "empty-index-list"
         if _old_pairing_hazard(c):
             return "product-two-lists-oob"
         if any(n == "shuffled" and not samples_valid(c, l) for n, l in lists):
             return "shuffled-sample-index-unchecked"
+        if any(l and (min(l) < 0 or max(l) > c.N) for _, l in lists):
+            return "sample-index-out-of-range"
         if any(c.N in l for _, l in lists):
             return "sample-index-eq-N"
-        if any(not samples_valid(c, l) for _, l in lists):
-            return "sample-index-out-of-range"
+        if any(l == [] for _, l in lists):
+            return "empty-index-list"
         return "crash"
     return "corr:" + ",".join(sorted({h[0] for h in c.hist}))[:80]
 
 
+def preconditions_ok(c):
+    """the preconditions (asserts) of the API that the generator respects: `shuffled` only on a currently shuffled feature,
+    `c2f` only on a valid column"""
+    try:
+        E = expected_features(c)
+    except Exception:
+        return False
+    F = len(E); C = sum(e["cols"] for e in E)
+    flags = [0] * F
+    for h in c.hist:
+        if h[0] == "drop" and 0 <= h[1] < F:
+            flags[h[1]] = 1
+        elif h[0] == "shuffle" and 0 <= h[1] < F:
+            flags[h[1]] = 2
+        elif h[0] in ("undrop", "unshuffle"):
+            flags = [0] * F
+        elif h[0] == "shuffled" and 0 <= h[1] < F and flags[h[1]] != 2:
+            return False
+        elif h[0] == "c2f" and not (0 <= h[1] < C):
+            return False
+    return True
+
+
 def shrink_candidates(op):
+    for cand in _shrink_candidates(op):
+        try:
+            if preconditions_ok(Case(cand)):
+                yield cand
+        except Exception:
+            continue
+
+
+def _shrink_candidates(op):
     try:
         c = Case(op)
     except Exception:
